@@ -614,6 +614,26 @@ class K(Base):
 OPS = [("abstracts", "Base"), ("abstracts", "Careless"), ("abstracts", "K"), ("newof", "Base"), ("newof", "Careless"), ("new", (), {{}}), ("call", "describe"),
        ("isabstract", "Base", "area"), ("isabstract", "Base", "label"), ("isabstract", "K", "area")]
 ''',
+    "copied-and-pickled-through-setstate": '''
+import icontract
+# (an invariant which reads the state of the object: it cannot be evaluated on the blank object that copy / pickle start from)
+READS_STATE = icontract.invariant(lambda self: self.x > 0) if {is_dec} else (lambda cls: cls)
+{deco}
+@READS_STATE
+class K{base}:
+    """The state is handed over explicitly (copy, deepcopy and pickle build a blank object and call __setstate__ on it)."""
+    def __init__(self, x=1):
+        self.x = x
+        self.cache = {{}}
+    def __getstate__(self):
+        return {{"x": self.x}}
+    def __setstate__(self, state):
+        self.x = state["x"]
+        self.cache = {{}}
+    def get(self):
+        return self.x
+OPS = [("new", (3,), {{}}), ("call", "get"), ("copy",), ("deepcopy",), ("pickle",), ("call", "get")]
+''',
     "singleton-new": '''
 {deco}
 class K{base}:
@@ -784,6 +804,11 @@ def run_ops(mod, ops) -> List[Any]:
                 plain = getattr(builtins, op[1])(inst)
                 res = (hash(inst) == hash(plain), inst == plain, plain == inst, inst != plain, str(inst), format(inst), {plain: "found"}.get(inst),
                        inst < plain + 1, inst >= plain)
+            elif op[0] in ("copy", "deepcopy", "pickle"):
+                import copy as _copy  # pylint: disable=import-outside-toplevel
+                import pickle as _pickle  # pylint: disable=import-outside-toplevel
+                made = {"copy": _copy.copy, "deepcopy": _copy.deepcopy, "pickle": lambda obj: _pickle.loads(_pickle.dumps(obj))}[op[0]](inst)
+                res = ("instance", type(made).__name__, made is not inst, sorted(getattr(made, "__dict__", {}).items(), key=str))
             elif op[0] == "inew":
                 # __new__ reached through an instance (it is a static method: no argument is bound)
                 made = inst.__new__(type(inst), *op[1:])
@@ -825,8 +850,8 @@ def run_classes(w) -> None:
                 # a subclass in the middle of the hierarchy carries an invariant of its own (decorator on a plain class; under DBC the
                 # meta-class has already given it the inherited ones)
                 deco2 = ideco.replace("'inv'", "'invM'").replace("'inv2'", "'invM2'")
-                dec_src = PRELUDE + template.format(deco=ideco + "\n@capture('K')", deco2=deco2, base=base, comma_base=comma_base)
-                bare_src = PRELUDE + template.format(deco="", deco2="", base=base, comma_base=comma_base)
+                dec_src = PRELUDE + template.format(deco=ideco + "\n@capture('K')", deco2=deco2, base=base, comma_base=comma_base, is_dec="True")
+                bare_src = PRELUDE + template.format(deco="", deco2="", base=base, comma_base=comma_base, is_dec="False")
                 w.count("class_programs")
                 w.case(("class", tag, dbc, iname))
                 case = {"class_program": tag, "dbc": dbc, "invariant": iname}
